@@ -2,6 +2,7 @@
    Print Assumptions. The statements are about every trace admitted by the protocol model (Sim/Proto.v,
    rules with constants regenerated from /repo), at every position of the trace. *)
 From LE Require Import Base Ev World Mon Mon2 Proto Consts GenGuards Config ConfigSpec GenConfig SimBasics SimOwn SimCallbacks SimTheorems GuardFacts Timing Witness.
+From LE Require Import Locks GenLocks Race RaceFacts RaceNow.
 Open Scope Z_scope.
 
 Theorem C11_default_grace_period :
@@ -9,3 +10,6 @@ Theorem C11_default_grace_period :
 Proof. exact grace_default. Qed.
 Print Assumptions C11_default_grace_period.
 
+Theorem C11_no_lock_order_cycle : has_cycle (order_edges acquires) = false.
+Proof. exact lock_order_acyclic_now. Qed.
+Print Assumptions C11_no_lock_order_cycle.
